@@ -213,6 +213,12 @@ var frags = []*Frag{
 		{ID: "{P}mfr1", Body: "    strategy:\n      matrix: ${{ inputs }}\n    runs-on: ubuntu-latest\n    steps:\n      - run: echo ${{ matrix.os }}\n"},
 		{ID: "{P}mfr2", Body: "    runs-on: ubuntu-latest\n    steps:\n      - run: echo \"${{ inputs.include }} ${{ inputs.exclude }}\"\n"},
 	}},
+	// a job that lost its runs-on (a syntax error of its own) with shells that only some platforms have,
+	// and jobs that pin a platform by a literal label
+	{Name: "no-runs-on-with-platform-shells", Jobs: []FragJob{{ID: "{P}nro", Body: "    steps:\n      - run: echo one\n        shell: cmd\n      - run: echo two\n        shell: sh\n      - run: echo three\n        shell: powershell\n      - run: echo four\n        shell: zsh\n"}}},
+	{Name: "call-mixed-with-steps-and-shells", Assets: []string{"wf-opt"}, Jobs: []FragJob{{ID: "{P}cms", Body: "    uses: ./.github/workflows/reuse-opt.yml\n    steps:\n      - run: echo one\n        shell: cmd\n      - run: echo two\n        shell: sh\n"}}},
+	{Name: "windows-literal-label", Clean: true, Jobs: []FragJob{{ID: "{P}win", Body: "    runs-on: windows-latest\n    steps:\n      - run: echo one\n        shell: cmd\n      - run: echo two\n        shell: pwsh\n"}}},
+	{Name: "macos-literal-label", Clean: true, Jobs: []FragJob{{ID: "{P}mac", Body: "    runs-on: macos-latest\n    steps:\n      - run: echo one\n        shell: sh\n      - run: echo two\n        shell: bash\n"}}},
 	{Name: "github-event-release", Jobs: []FragJob{{ID: "{P}ger", Body: "    runs-on: ubuntu-latest\n    steps:\n      - run: echo \"${{ github.event.release.tag_name }} ${{ github.event.action }} ${{ github.event.release.nope.deeper }}\"\n"}}},
 	// the arrays of an event payload, once with .* and once with a property taken from the array itself
 	{Name: "github-event-arrays-star", Jobs: []FragJob{{ID: "{P}gas", Body: "    runs-on: ubuntu-latest\n    steps:\n      - run: echo \"${{ join(github.event.commits.*.id, ',') }} ${{ join(github.event.pages.*.action, ',') }}\"\n"}}},
